@@ -459,9 +459,14 @@ def write_evidence(eng, prop, tier, seed, targets, records, problems, known_hits
 
 
 def trusted_base(axioms):
+    from . import spec as specmod
     out = ['PyVC symbolic semantics of the Python subset (pyvc/engine.py, loops.py, contracts.py)',
            'z3 5.1.0 (python3-vt), /usr/bin/cvc5 1.0.3 for queries z3 leaves open',
            'sidecar contracts in /verif/specs transcribe the property statements']
+    for (q, c), sp in sorted(specmod.FUNCS.items(), key=lambda kv: (kv[0][0], kv[0][1] or '')):
+        if sp.trusted:
+            out.append('ASSUMED contract (body not verified, callers rely on it): %s%s - %s'
+                       % (q, '[%s]' % c if c else '', sp.note or 'trusted'))
     for kind in sorted(axioms):
         if kind == 'lemma':
             out.append('algebraic laws used as SMT axioms and proved in Lean 4 / Mathlib over the list model '
